@@ -22,8 +22,8 @@ func init() {
 	sim.Register(&sim.Check{
 		ID: "C44", Title: "Shared protocol structures are free of data races", World: "threads",
 		Gen: genC44, Exec: execC44, Prepare: prepareFn(true),
-		Quick:    sim.Budget{Runs: 1200, WallS: 35},
-		Thorough: sim.Budget{Runs: 400000, WallS: 780},
+		Quick:       sim.Budget{Runs: 1200, WallS: 35},
+		Thorough:    sim.Budget{Runs: 400000, WallS: 780},
 		RunsPerProc: 100,
 		LevelText: "seeded search over concurrent workloads and interleavings of the exported Round and Block operations under the Go race detector (-race build of the instrumented copy); " +
 			"every report is a violation whose signature is the pair of racing source lines; a clean batch is evidence, not proof",
